@@ -166,7 +166,8 @@ def vstep (c : VCtx) (s : VState) (cmd : String) : M VState := do
         let off := if c.kind == "ulog" then c.T.wrap (1 + off0) else if c.kind == "urev" then c.T.wrap (spn - 1 - off0) else off0
         let shift : Int := if c.acc == "sh" then 1000 else 0
         let base := s!"a={v.h + off + shift}" ++ (if c.kind == "ulog" then s!" ix={fmtL idx}" else "")
-        pure (emit (if c.logs then base ++ s!" log={v.h},{ITy.u64.wrap off} n=1" else base))
+        -- `sf`: access() returns a reference into the accessor stored in the view
+        pure (emit (if c.acc == "sf" then "a=self" else if c.logs then base ++ s!" log={v.h},{ITy.u64.wrap off} n=1" else base))
   | "wr" =>
     match getSlot s.pool (nn 1) with
     | none => pure (emit "none")
